@@ -1,5 +1,5 @@
 (* Props/C15.v -- property theorems for C15 (queries and derived views). *)
-From PraatIO Require Import Tier.QueryModel Tier.CtorProofs Tier.SetProofs Tier.QueryProofs Tier.AdjustProofs.
+From PraatIO Require Import Tier.QueryModel Tier.CtorProofs Tier.SetProofs Tier.QueryProofs Tier.QueryFuzzyProofs Tier.AdjustProofs.
 
 Theorem C15_find_exact t q k :
   In k (find_i t q false) <-> exists i, nth_error (ients t) k = Some i /\ ilabel i = q.
@@ -71,3 +71,29 @@ Proof.
   - apply itier_eqb_eq in E2. subst. assert (itier_eqb t t = true) by (apply itier_eqb_eq; reflexivity). congruence.
 Qed.
 Print Assumptions C15_tier_equality_reflexive_symmetric.
+
+(* fuzzy getValueAtTime on a strictly time-sorted series: the row returned is a row of the series (from the
+   start index on), no row is nearer to the target, and of two rows equally near the earlier one is returned *)
+Theorem C15_value_at_time_fuzzy_nearest t data start r i :
+  StronglySorted Z.lt (map fst (skipn start data)) ->
+  value_at_fuzzy t data start = Ok (r, i) ->
+  In r (skipn start data) /\
+  forall r', In r' (skipn start data) ->
+    Z.abs (fst r - t) <= Z.abs (fst r' - t) /\
+    (Z.abs (fst r - t) = Z.abs (fst r' - t) -> fst r <= fst r').
+Proof. exact (value_at_fuzzy_nearest t data start r i). Qed.
+Print Assumptions C15_value_at_time_fuzzy_nearest.
+
+(* it fails (IndexError in the source) exactly when no sample is left from the start index on *)
+Theorem C15_value_at_time_fuzzy_fails_iff t data start :
+  (exists e, value_at_fuzzy t data start = Err e) <-> skipn start data = [].
+Proof. exact (value_at_fuzzy_fails_iff t data start). Qed.
+Print Assumptions C15_value_at_time_fuzzy_fails_iff.
+
+(* a target that is a sample time gets the sample at that time *)
+Theorem C15_value_at_time_fuzzy_exact_hit t data start r i r' :
+  StronglySorted Z.lt (map fst (skipn start data)) ->
+  value_at_fuzzy t data start = Ok (r, i) ->
+  In r' (skipn start data) -> fst r' = t -> fst r = t.
+Proof. exact (value_at_fuzzy_exact_hit t data start r i r'). Qed.
+Print Assumptions C15_value_at_time_fuzzy_exact_hit.
